@@ -40,13 +40,17 @@ def run(rep: vlib.Reporter, tier: str, seed: int) -> None:
     rep.proof(pr2)
     pr3 = vlib.build_props("C06inplace")  # in-place calculations: conflict_free may be weakened to conflict_free_ip
     rep.proof(pr3)
-    pr.ok = pr.ok and pr2.ok and pr3.ok
-    pr.failed_files += pr2.failed_files + pr3.failed_files
+    pr4 = vlib.build_props("C06store")    # MULTIPROCESSING store protocol of one object: a reader is never served a staler table
+    rep.proof(pr4)                        # than the one of the last finished uploading step (Model/MpStore.v)
+    pr.ok = pr.ok and pr2.ok and pr3.ok and pr4.ok
+    pr.failed_files += pr2.failed_files + pr3.failed_files + pr4.failed_files
     rep.coverage["trusted_base"] += [
         "Model/Orch.v (orchestrator) is proved mode-independent at the level of WHICH steps run and WHICH results are collected; "
         "the data plane is modelled for merge-free plans (Model/DataPlane.v, DataPlaneConc.v: replacing steps; DataPlaneInPlace.v: "
-        "in-place steps on a heap of mutable frames - one atomic event per inserted column); Flight upload/download is not modelled: "
-        "contents are compared on the implementation; conflict_free / conflict_free_ip (Model/OrchCheck.v) classify plans from "
+        "in-place steps on a heap of mutable frames - one atomic event per inserted column); the Flight store is modelled for ONE "
+        "compute-framework object (Model/MpStore.v: calc step / upload after the calculation of every need_to_upload step / read by "
+        "another worker; observed uploads and downloads of the family two_uploads are replayed by MpStore.chk_replay), not for merged "
+        "objects, join re-uploads, result collection and the dropping of datasets: there contents are compared on the implementation; conflict_free / conflict_free_ip (Model/OrchCheck.v) classify plans from "
         "footprints and result styles OBSERVED on the SYNC run and the written/read columns of the generated spec",
         "gating scheduler at calculation/transform/merge entry; MULTIPROCESSING schedules are sampled, not controlled",
         "Arrow Flight is treated as a reliable key-value store"]
@@ -119,7 +123,15 @@ def run(rep: vlib.Reporter, tier: str, seed: int) -> None:
         dist["sync_ok"] += 1
         uni = Universe(r["spec"], GateListener())
         sess = uni.prepare()
-        base = canon_result(run_observed(sess)["result"])
+        o_ref = run_observed(sess)
+        if o_ref["status"] != "ok":       # the reference run is repeated once; a SYNC run that fails after it succeeded is reported with its input
+            o_ref = run_observed(sess)
+        if o_ref["status"] != "ok":
+            rep.finding(f"sync-rerun:{key}", f"a second SYNC run of the prepared session ended with {o_ref['status']}: "
+                        f"{' '.join(str(o_ref.get('exc')).split())[-200:]} (the first SYNC run returned tables)", {"kind": "mp", "spec": r["spec"]})
+            found = True
+            continue
+        base = canon_result(o_ref["result"])
         # THREADING (gated)
         for j, g in enumerate(r["gated"]):
             dist["threading_runs"] += 1
@@ -167,6 +179,14 @@ def run(rep: vlib.Reporter, tier: str, seed: int) -> None:
             else:
                 rep.finding(f"mp:{key}", what, replay)
                 found = True
+    # ONE compute-framework object that publishes its table twice, a reader in another worker behind each upload (all pairs of
+    # different frameworks): SYNC vs MULTIPROCESSING on fresh sessions + the observed uploads / downloads of the object's key replayed
+    # against the store protocol model (harness/c06store.py, Props/C06store.v)
+    from harness import c06store
+    st_found, st_n, st_dist = c06store.check(rep, big, rng, fs)
+    found |= st_found
+    n_eval += st_n
+    dist["two_uploads_store_protocol"] = st_dist
     # the Flight store as MULTIPROCESSING uses it: replacing a key is atomic for concurrent readers (harness/flight_atomic.py)
     from harness import flight_atomic
     fa = flight_atomic.check(40 if big else 12)
@@ -249,6 +269,9 @@ def replay(path: str) -> int:
         print(flight_atomic.check(20))
         stop_flight_server()
         return 0
+    if r.get("kind") == "two_uploads":
+        from harness import c06store
+        return c06store.replay(r)
     if r.get("kind") == "gated":
         return c01.replay(path)
     from mloda.user import ParallelizationMode
